@@ -360,3 +360,25 @@ func finishEntry(e Ent, after string) (Ent, Verdict, string) {
 	e.Summary = []string{after[1:]}
 	return e, Conforming, ""
 }
+
+// ParseEntryText judges the text of an entry as it follows the indentation
+// (value, optionally followed by one space and the summary's first line).
+func ParseEntryText(s string) (Ent, Verdict, string) {
+	r0, _ := utf8.DecodeRuneInString(s)
+	if s == "" || isBlankChar(r0) {
+		return Ent{}, NonConforming, "entry must start with its value"
+	}
+	if strings.ContainsAny(s, "\r\n\x00") {
+		return Ent{}, Undecided, "control characters"
+	}
+	return parseEntry(s)
+}
+
+// ValidRecordSummaryLine: non-empty and not starting with a blank character.
+func ValidRecordSummaryLine(s string) bool {
+	r0, _ := utf8.DecodeRuneInString(s)
+	return s != "" && !isBlankChar(r0)
+}
+
+// ValidContinuationLine: not only blank characters.
+func ValidContinuationLine(s string) bool { return !IsBlankSpec(s) }
